@@ -68,7 +68,7 @@ def run_shard(shard, res):
                     import traceback
 
                     tb = traceback.extract_tb(e.__traceback__)
-                    site = next((("%s:%d in %s" % (fr.filename.split("/repo/")[-1], fr.lineno, fr.name)) for fr in reversed(tb) if "/repo/" in fr.filename), "?")
+                    site = next((("funsor/%s:%d in %s" % (fr.filename.split("/funsor/")[-1], fr.lineno, fr.name)) for fr in reversed(tb) if "/funsor/" in fr.filename and "/verif/" not in fr.filename), "?")
                     res.violation("mutation:write-to-user-array@%s" % site.split(" in ")[-1], "funsor attempted to write into a user-supplied (read-only) array at %s during %s" % (site, label))
                 else:
                     res.count("workload-declined:ValueError")
